@@ -9,6 +9,8 @@ import HopModel.Driver.C19
 import HopModel.Driver.C10
 import HopModel.Driver.C13
 import HopModel.Driver.C12
+import HopModel.Driver.C06
+import HopModel.Driver.C07
 
 def main (args : List String) : IO UInt32 := do
   match args with
@@ -25,6 +27,11 @@ def main (args : List String) : IO UInt32 := do
   | "C10" :: rest => Driver.C10.main rest; return 0
   | "C13" :: rest => Driver.C13.main rest; return 0
   | "C12" :: rest => Driver.C12.main rest; return 0
+  | "C06" :: rest => Driver.C06.main rest; return 0
+  | "C06t" :: rest => Driver.C06.mainT rest; return 0
+  | "C07" :: rest => Driver.C07.main rest; return 0
+  | "C07e2e" :: rest => Driver.C07.mainE2E rest; return 0
+  | "C07full" :: rest => Driver.C07.mainFull rest; return 0
   | _ =>
     IO.eprintln "usage: hopmodel <Cxx> [--spec] < ops.txt > model.txt"
     return 2
